@@ -444,6 +444,8 @@ class ANF:
         at_least_once = False
         if isinstance(s, ast.For):
             it = self.eval(s.iter, env, cond, loops)
+            if it[0] == "dict" and all(k_ != C("**") for k_, _ in it[1]):
+                it = ("list", tuple(k_ for k_, _ in it[1]))             # iterating a dictionary display iterates its keys
             # literal sequence of constants / tuples: unroll
             if it[0] in ("list", "tuple") and len(it[1]) <= 16 and not s.orelse:
                 for item in it[1]:
@@ -746,6 +748,8 @@ class ANF:
             gens = []
             for g in e.generators:
                 it = self.eval(g.iter, e2, cond, loops)
+                if it[0] == "dict" and all(k_ != C("**") for k_, _ in it[1]):
+                    it = ("list", tuple(k_ for k_, _ in it[1]))         # iterating a dictionary display iterates its keys
                 self._bound += 1
                 b = self._bound
                 dict_items = it[0] == "call" and it[1][0] == "attr" and it[1][2] in ("items", "values") and not it[2] and not it[3]
@@ -924,6 +928,14 @@ class ANF:
                         return C(recv[1].format(*[a[1] for a in args]))
                     except Exception:
                         pass
+                if recv[0] == "dict" and f.attr in ("keys", "values", "items") and not args and not kw \
+                        and all(k_ != C("**") for k_, _ in recv[1]):
+                    # the keys / values / items of a dictionary display are the displays of them
+                    if f.attr == "keys":
+                        return ("list", tuple(k_ for k_, _ in recv[1]))
+                    if f.attr == "values":
+                        return ("list", tuple(v_ for _, v_ in recv[1]))
+                    return ("list", tuple(("tuple", (k_, v_)) for k_, v_ in recv[1]))
                 if f.attr in ("__eq__", "__ne__") and len(args) == 1 and not kw:
                     return self.compare("==" if f.attr == "__eq__" else "!=", recv, args[0])
                 if f.attr == "append" and len(args) == 1 and not kw and isinstance(f.value, ast.Name) and f.value.id in env \
@@ -960,6 +972,8 @@ class ANF:
         args, kw = self.bind_keywords(fn, args, kw)
         if fn[0] == "x" and self.strip and fn[1] in TRANSPARENT_FUNCS and args:
             return args[0]
+        if fn == ("x", "builtins.vars") and len(args) == 1 and not kw:
+            return ("attr", args[0], "__dict__")            # vars(o) is o.__dict__
         if fn[0] == "x" and fn[1] == "numpy.flatnonzero" and len(args) == 1 and not kw:
             # positions of the True entries: the same as np.where(mask)[0] / np.nonzero(mask)[0] for the 1-d masks of this package
             return read(self._call_term(("x", "numpy.where"), e, args, kw, cond, loops), (C(0),))
